@@ -120,10 +120,43 @@ func hasNullInList(v any, inList bool) bool {
 	return false
 }
 
+// Documents converted EARLIER and edited since are other documents: what a caller adds below an empty mapping or list of
+// one of them (top level, member, list item, or the node DefaultNodeDecoderFn makes of an empty map) must not show in
+// any value converted afterwards.
+func c01EditEarlier() (fail []string) {
+	if pn := guard(func() {
+		e := dom.Builder().FromMap(map[string]any{})
+		e.AddValue("stray-top", dom.LeafNode("x"))
+		l := dom.Builder().FromMap(map[string]any{"items": []any{map[string]any{}, []any{}}, "m": map[string]any{}})
+		l.AddValueAt("items[0].stray-item", dom.LeafNode("x"))
+		l.AddValueAt("m.stray-member", dom.LeafNode("x"))
+		l.AddValueAt("items[1][0]", dom.LeafNode("x"))
+		if cb, ok := dom.DefaultNodeDecoderFn(map[string]any{}).(dom.ContainerBuilder); ok {
+			cb.AddValue("stray-decoded", dom.LeafNode("x"))
+		}
+		t, _ := dom.Builder().FromReader(strings.NewReader("items: [{}, []]\nm: {}\n"), dom.DefaultYamlDecoder)
+		if t != nil {
+			t.AddValueAt("items[0].stray-text", dom.LeafNode("x"))
+			t.AddValueAt("m.stray-text", dom.LeafNode("x"))
+		}
+		for _, probe := range []map[string]any{{}, {"items": []any{map[string]any{}, []any{}}, "m": map[string]any{}}, {"l": []any{[]any{map[string]any{}}}}} {
+			if back := dom.Builder().FromMap(deepCopy(probe).(map[string]any)).AsMap(); !reflect.DeepEqual(back, probe) {
+				fail = append(fail, fmt.Sprintf("after documents converted earlier were edited, AsMap(FromMap(%v)) = %v", probe, back))
+			}
+		}
+		if n := dom.DefaultNodeDecoderFn(map[string]any{}); n == nil || !n.IsContainer() || len(n.(dom.Container).Children()) != 0 {
+			fail = append(fail, "DefaultNodeDecoderFn of an empty map is not an empty mapping any more")
+		}
+	}); pn != "" {
+		fail = append(fail, "panic while editing documents converted earlier: "+pn)
+	}
+	return fail
+}
+
 func c01Round(m map[string]any, kind string) Case {
 	var back map[string]any
 	var d dom.ContainerBuilder
-	var fail []string
+	fail := c01EditEarlier()
 	if pn := guard(func() { d = dom.Builder().FromMap(m); back = d.AsMap() }); pn != "" {
 		return Case{Kind: kind, Desc: map[string]any{"m": fmt.Sprint(m), "panic": pn}, Fail: []string{"panic in FromMap/AsMap: " + pn}, Nontrivial: true,
 			Coq: "CRound " + gGval(normGeneric(m)) + " GNil"}
